@@ -28,9 +28,11 @@ import (
 func main() { vlib.Run("C14", run) }
 
 func run(c *vlib.Ctx) {
-	c.Rule("ancestor tree depth<=4 fan-out<=6 over 7 names and 4 file contents (identical files and identical sub-directories are frequent); a and b are each derived by 0-8 edits {add file, add dir, add copy of an existing subtree, remove, change file content, replace dir by file, replace file by dir, empty a dir} at random depths; strata: clean (pairs repaired so that no path holds a file on one side and a non-empty directory on the other), kind (such paths forced), same (a==b built twice); both directions a->b and b->a plus Diff(x,x); distinct = FNV of both trees; non-trivial = the diff has >=3 changes of >=2 types with one at depth>=2")
-	c.Cases("clean", c.N(1500, 30000), func(k *vlib.Case) { pairCase(k, "clean") })
-	c.Cases("kind", c.N(700, 12000), func(k *vlib.Case) { pairCase(k, "kind") })
+	c.Rule("ancestor tree depth<=4 fan-out<=6 over 7 names and 4 file contents (identical files and identical sub-directories are frequent); a and b are each derived by 0-8 edits {add file, add dir, add copy of an existing subtree, remove, change file content, replace dir by file, replace file by dir, empty a dir} at random depths; strata: clean (file/non-empty-dir clashes repaired by renaming AND link names suffixed with their depth, so neither known trigger can occur), shared (clashes repaired, plain names: identical subtrees at different depths), kind (a clash forced), selfsim (2 names, 2 contents, deep: a directory often equals its own parent's previous state), same (a==b built twice); both directions a->b and b->a plus Diff(x,x); every change list is also replayed on a model of the Editor's temporary store to compute the class features; distinct = FNV of both trees; non-trivial = the diff has >=3 changes of >=2 types with one at depth>=2")
+	c.Cases("clean", c.N(1200, 20000), func(k *vlib.Case) { pairCase(k, "clean") })
+	c.Cases("shared", c.N(800, 12000), func(k *vlib.Case) { pairCase(k, "shared") })
+	c.Cases("kind", c.N(500, 8000), func(k *vlib.Case) { pairCase(k, "kind") })
+	c.Cases("selfsim", c.N(600, 8000), func(k *vlib.Case) { pairCase(k, "selfsim") })
 	c.Cases("same", c.N(100, 1000), func(k *vlib.Case) { pairCase(k, "same") })
 }
 
@@ -44,7 +46,7 @@ type tn struct {
 
 func (t *tn) clone() *tn {
 	c := &tn{dir: t.dir, data: t.data}
-	if t.dir {
+	if t.dir || len(t.kids) > 0 {
 		c.kids = map[string]*tn{}
 		for n, k := range t.kids {
 			c.kids[n] = k.clone()
@@ -62,11 +64,17 @@ func (t *tn) names() []string {
 	return ns
 }
 
+// String is the canonical text of a subtree: equal text <=> equal CID (one CID
+// builder per case, links added through AddNodeLink). A file that was given
+// links by a wrong change list prints as 'data'{...}.
 func (t *tn) String() string {
-	if !t.dir {
-		return "'" + t.data + "'"
-	}
 	var sb strings.Builder
+	if !t.dir {
+		sb.WriteString("'" + t.data + "'")
+		if len(t.kids) == 0 {
+			return sb.String()
+		}
+	}
 	sb.WriteByte('{')
 	for i, n := range t.names() {
 		if i > 0 {
@@ -80,6 +88,7 @@ func (t *tn) String() string {
 
 var namePool = []string{"a", "b", "c", "d", "e", "f", "long-name.txt"}
 var contents = []string{"", "x", "y", "some longer file content"}
+var dirNum = 2 // a new entry is a directory with probability dirNum/5
 
 func genTree(r *vlib.Rand, depth int) *tn {
 	t := &tn{dir: true, kids: map[string]*tn{}}
@@ -89,7 +98,7 @@ func genTree(r *vlib.Rand, depth int) *tn {
 	}
 	for i := 0; i < fan; i++ {
 		n := namePool[r.Intn(len(namePool))]
-		if depth < 3 && r.Chance(2, 5) {
+		if depth < 3 && r.Chance(dirNum, 5) {
 			t.kids[n] = genTree(r, depth+1)
 		} else {
 			t.kids[n] = &tn{data: contents[r.Intn(len(contents))]}
@@ -170,6 +179,64 @@ func edit(k *vlib.Case, r *vlib.Rand, t *tn, who string, allowKind bool) {
 			k.Logf("%s: replace file %q by a dir at depth %d", who, name, pick.depth)
 		}
 	}
+}
+
+// plantChain puts, at the same place in both trees, a chain of single-entry
+// directories n1/(n2/)C. In a, C holds a few files; in b, C holds a copy of
+// the emptied chain itself plus one later-sorting entry. While the diff is
+// applied, C passes through the exact content its ancestor had one step
+// earlier (self-similar nesting) and is then visited again.
+func plantChain(k *vlib.Case, r *vlib.Rand, a, b *tn) {
+	// a directory that exists at the same path in both trees: walk from the roots
+	x, y := a, b
+	for depth := 0; depth < 2 && r.Bool(); depth++ {
+		var common []string
+		for _, n := range x.names() {
+			if x.kids[n].dir && y.kids[n] != nil && y.kids[n].dir {
+				common = append(common, n)
+			}
+		}
+		if len(common) == 0 {
+			break
+		}
+		n := common[r.Intn(len(common))]
+		x, y = x.kids[n], y.kids[n]
+	}
+	L := r.Range(1, 2)
+	chain := make([]string, L)
+	for i := range chain {
+		chain[i] = namePool[r.Intn(len(namePool))]
+	}
+	mk := func(inner *tn) *tn { // n1:{n2:{...inner}}
+		t := inner
+		for i := L - 1; i >= 1; i-- {
+			t = &tn{dir: true, kids: map[string]*tn{chain[i]: t}}
+		}
+		return t
+	}
+	ca := &tn{dir: true, kids: map[string]*tn{}}
+	for i := r.Intn(3); i > 0; i-- {
+		ca.kids[[]string{"p", "q", "a"}[r.Intn(3)]] = &tn{data: contents[r.Intn(len(contents))]}
+	}
+	empty := func() *tn { return &tn{dir: true, kids: map[string]*tn{}} }
+	cb := &tn{dir: true, kids: map[string]*tn{
+		chain[0]: mk(empty()),
+		"z":      {data: "x"},
+	}}
+	if r.Chance(1, 4) {
+		delete(cb.kids, "z") // nothing visits C afterwards: the lost node is never missed
+	}
+	// G is a fresh single-entry directory, so that G == {n1:{n2:{}}} once C is emptied
+	g := namePool[r.Intn(len(namePool))]
+	if r.Chance(1, 5) {
+		// not wrapped: the enclosing directory usually has other entries and nothing collides
+		x.kids[chain[0]] = mk(ca)
+		y.kids[chain[0]] = mk(cb)
+	} else {
+		x.kids[g] = &tn{dir: true, kids: map[string]*tn{chain[0]: mk(ca)}}
+		y.kids[g] = &tn{dir: true, kids: map[string]*tn{chain[0]: mk(cb)}}
+	}
+	k.Logf("planted self-similar chain %q/%v", g, chain)
 }
 
 // kindChanges returns the paths present in both trees that hold a file on one
@@ -256,10 +323,140 @@ func forceKind(r *vlib.Rand, a, b *tn) bool {
 	return walk(a, b, 0)
 }
 
+// render returns the tree with the link names actually used: the plain names,
+// or (clean stratum) name.depth so that no name repeats along any path.
+func render(t *tn, depth int, suffix bool) *tn {
+	c := &tn{dir: t.dir, data: t.data}
+	if t.dir {
+		c.kids = map[string]*tn{}
+		for n, k := range t.kids {
+			nn := n
+			if suffix {
+				nn = fmt.Sprintf("%s.%d", n, depth)
+			}
+			c.kids[nn] = render(k, depth+1, suffix)
+		}
+	}
+	return c
+}
+
+func allKeys(t *tn, out map[string]bool) {
+	out[t.String()] = true
+	for _, k := range t.kids {
+		allKeys(k, out)
+	}
+}
+
+// edSim replays a change list on the tree model together with a model of the
+// Editor's temporary block store (utils.go: every rewritten node is added to
+// tmp, the previous version of each rewritten ancestor is deleted from tmp,
+// lookups try tmp and then the source service). It is used only to compute
+// class features: does the change list, applied by an Editor, reach a node
+// whose block is in neither store?
+type edSim struct {
+	root *tn
+	tmp  map[string]bool
+	src  map[string]bool
+}
+
+func (s *edSim) walk(parts []string) ([]*tn, string) {
+	nodes := []*tn{s.root}
+	for i := 0; i < len(parts)-1; i++ {
+		ch := nodes[i].kids[parts[i]]
+		if ch == nil {
+			return nil, "no-such-link"
+		}
+		if key := ch.String(); !s.tmp[key] && !s.src[key] {
+			return nil, "block-not-found"
+		}
+		nodes = append(nodes, ch)
+	}
+	return nodes, ""
+}
+
+func (s *edSim) rewrite(nodes []*tn, olds []string, baseRemovesOld bool) {
+	m := len(nodes) - 1
+	if baseRemovesOld {
+		delete(s.tmp, olds[m])
+	}
+	s.tmp[nodes[m].String()] = true
+	for i := m - 1; i >= 0; i-- {
+		delete(s.tmp, olds[i])
+		s.tmp[nodes[i].String()] = true
+	}
+}
+
+func keysOf(nodes []*tn) []string {
+	out := make([]string, len(nodes))
+	for i, n := range nodes {
+		out[i] = n.String()
+	}
+	return out
+}
+
+func (s *edSim) remove(path string) string {
+	parts := strings.Split(path, "/")
+	nodes, st := s.walk(parts)
+	if st != "" {
+		return st
+	}
+	base, name := nodes[len(nodes)-1], parts[len(parts)-1]
+	if base.kids[name] == nil {
+		return "no-such-link"
+	}
+	olds := keysOf(nodes)
+	delete(base.kids, name)
+	s.rewrite(nodes, olds, false) // rmLink's base case adds the new node and deletes nothing
+	return ""
+}
+
+func (s *edSim) insert(path string, child *tn) string {
+	parts := strings.Split(path, "/")
+	nodes, st := s.walk(parts)
+	if st != "" {
+		return st
+	}
+	base, name := nodes[len(nodes)-1], parts[len(parts)-1]
+	olds := keysOf(nodes)
+	s.tmp[child.String()] = true // addLink: child first, then the parent's old version is deleted
+	if base.kids == nil {
+		base.kids = map[string]*tn{}
+	}
+	base.kids[name] = child.clone()
+	s.rewrite(nodes, olds, true)
+	return ""
+}
+
+// predict returns "" when an Editor can apply the whole list, else the kind of
+// failure and the index of the failing change; final is the resulting tree.
+func predict(a, b *tn, changes []*dagutils.Change, byCid map[string]*tn) (status string, at int, final string) {
+	s := &edSim{root: a.clone(), tmp: map[string]bool{}, src: map[string]bool{}}
+	allKeys(a, s.src)
+	allKeys(b, s.src)
+	for i, c := range changes {
+		st := ""
+		if c.Type == dagutils.Remove || c.Type == dagutils.Mod {
+			st = s.remove(c.Path)
+		}
+		if st == "" && (c.Type == dagutils.Add || c.Type == dagutils.Mod) {
+			child := byCid[c.After.KeyString()]
+			if child == nil {
+				return "unknown-after-cid", i, ""
+			}
+			st = s.insert(c.Path, child)
+		}
+		if st != "" {
+			return st, i, ""
+		}
+	}
+	return "", -1, s.root.String()
+}
+
 // ---------------------------------------------------------------- DAG building
 
 type built struct {
 	nodes map[string]format.Node // by CID key
+	trees map[string]*tn         // by CID key: the model subtree a block stands for
 	v1    bool
 }
 
@@ -283,6 +480,7 @@ func (bl *built) build(t *tn) *mdag.ProtoNode {
 		}
 	}
 	bl.nodes[nd.Cid().KeyString()] = nd
+	bl.trees[nd.Cid().KeyString()] = t
 	return nd
 }
 
@@ -354,20 +552,31 @@ func complete(ctx context.Context, dserv format.DAGService, c cid.Cid) bool {
 func pairCase(k *vlib.Case, stratum string) {
 	r := k.R
 	ctx := context.Background()
+	// generator parameters (the harness runs one case at a time)
+	namePool = []string{"a", "b", "c", "d", "e", "f", "long-name.txt"}
+	contents = []string{"", "x", "y", "some longer file content"}
+	dirNum = 2
+	if stratum == "selfsim" {
+		namePool = []string{"a", "b"}
+		contents = []string{"", "x"}
+		dirNum = 3
+	}
 	anc := genTree(r, 0)
 	a, b := anc.clone(), anc.clone()
-	allowKind := true // kind changes are always generated; the clean stratum repairs the clashing ones
 	switch stratum {
 	case "same":
 		edit(k, r, a, "a", true)
 		b = a.clone()
 	default:
 		if r.Chance(3, 4) {
-			edit(k, r, a, "a", allowKind)
+			edit(k, r, a, "a", true)
 		}
-		edit(k, r, b, "b", allowKind)
+		edit(k, r, b, "b", true)
 	}
-	if stratum == "clean" {
+	if stratum == "selfsim" && r.Chance(1, 2) {
+		plantChain(k, r, a, b)
+	}
+	if stratum == "clean" || stratum == "shared" {
 		if n := repair(a, b); n > 0 {
 			k.Logf("repaired %d file/non-empty-dir clashes by renaming b's entry", n)
 		}
@@ -379,16 +588,17 @@ func pairCase(k *vlib.Case, stratum string) {
 			k.Logf("(no aligned entry to clash on)")
 		}
 	}
+	a, b = render(a, 0, stratum == "clean"), render(b, 0, stratum == "clean")
 	k.Logf("a = %s", a)
 	k.Logf("b = %s", b)
 	var kc []string
 	kindChanges(a, b, "", &kc)
 	k.Logf("file/non-empty-dir clashes: %v", kc)
-	if stratum == "clean" && len(kc) > 0 {
-		panic("clean stratum generated a clash")
+	if (stratum == "clean" || stratum == "shared") && len(kc) > 0 {
+		panic("repaired stratum generated a clash")
 	}
 
-	bl := &built{nodes: map[string]format.Node{}, v1: r.Bool()}
+	bl := &built{nodes: map[string]format.Node{}, trees: map[string]*tn{}, v1: r.Bool()}
 	ra, rb := bl.build(a), bl.build(b)
 	k.Logf("cid version v1=%v a=%s b=%s blocks=%d", bl.v1, short(ra.Cid()), short(rb.Cid()), len(bl.nodes))
 
@@ -399,8 +609,10 @@ func pairCase(k *vlib.Case, stratum string) {
 	nontrivial := false
 	for dir := 0; dir < 2; dir++ {
 		from, to, label := ra.Cid(), rb.Cid(), "a->b"
+		ft, tt := a, b
 		if dir == 1 {
 			from, to, label = rb.Cid(), ra.Cid(), "b->a"
+			ft, tt = b, a
 		}
 		dserv := bl.service(ctx) // fresh store per direction: a and b complete, nothing else
 		fn, err := dserv.Get(ctx, from)
@@ -437,14 +649,42 @@ func pairCase(k *vlib.Case, stratum string) {
 			nontrivial = true
 		}
 		k.C.Count("changes", int64(len(changes)))
+
+		// class features from the model of the Editor's temporary store
+		pst, pat, pfinal := predict(ft, tt, changes, bl.trees)
+		if pst != "" {
+			k.Logf("%s editor-store model: change #%d (%s) hits %s", label, pat, changes[pat].Path, pst)
+			k.C.Count("model_predicts_"+pst, 1)
+		}
+
 		res, err := dagutils.ApplyChange(ctx, dserv, fn.(*mdag.ProtoNode), changes)
 		if err != nil {
-			k.Fail("apply-error/"+errClass(err)+feat, "ApplyChange(a, Diff(a,b)) succeeds", "nil", label+": "+err.Error())
+			cls := "apply-error/" + errClass(err)
+			if errClass(err) == "block-not-found" {
+				if pst == "block-not-found" {
+					// the Editor deleted the only copy of a node it had just written
+					cls += "/editor-dropped-rewritten-node"
+				} else {
+					cls += "/unexplained" + feat
+				}
+			} else {
+				cls += feat
+			}
+			k.Fail(cls, "ApplyChange(a, Diff(a,b)) succeeds", "nil", label+": "+err.Error())
 			continue
+		}
+		if pst != "" {
+			k.C.Count("model_predicted_failure_but_apply_succeeded", 1)
 		}
 		if !res.Cid().Equals(to) {
 			k.Fail("apply-cid-mismatch"+feat, "ApplyChange(a, Diff(a,b)).Cid() == b.Cid()", to.String(), label+": "+res.Cid().String())
+			if pst == "" && pfinal == tt.String() {
+				k.C.Count("model_predicted_equal_but_cid_differs", 1)
+			}
 			continue
+		}
+		if pst == "" && pfinal != tt.String() {
+			k.C.Count("model_predicted_different_but_cid_equal", 1)
 		}
 		k.C.Count("applied_ok", 1)
 		if !complete(ctx, dserv, res.Cid()) {
